@@ -106,6 +106,7 @@ def r3(ctx):
     from . import c04
     ctx.sub(c04.r1)
     ctx.sub(c04.r3)
+    ctx.sub(c04.r4, only=("assembly",))     # each part is padded with the run's own window size (not a default)
 
 
 @rule("C10", "R4", "PURE", "stacking, splitting and padding depend on their arguments only (no module-level tables or caches)", floor=1, evidence=True)
